@@ -625,6 +625,10 @@ func (o *BabbageTransactionOutput) UnmarshalCBOR(cborData []byte) error {
 }
 
 func (o *BabbageTransactionOutput) MarshalCBOR() ([]byte, error) {
+	// Return stored CBOR if available
+	if o.Cbor() != nil {
+		return o.Cbor(), nil
+	}
 	if o.legacyOutput {
 		tmpOutput := alonzo.AlonzoTransactionOutput{
 			OutputAddress: o.OutputAddress,
